@@ -1,4 +1,5 @@
 import PyodaModel.DriverLoop
 import PyodaModel.Codec
+import PyodaModel.Codec.Session
 
-def main : IO Unit := Pyoda.runDriver [Pyoda.Codec.handle]
+def main : IO Unit := Pyoda.runDriver [Pyoda.Codec.handle, Pyoda.Codec.Session.handle]
